@@ -32,7 +32,7 @@ ASSUMPTIONS = ['state names used in steps exist (documented requirement)',
                'behave 1.3.3 as installed; step statuses read from its JSON formatter']
 MIX = (('sibling', 40), ('other', 15), ('orthin', 5), ('anc', 15), ('desc', 5), ('hist', 5),
        ('internal', 15))
-VALUES = ['0', '1', '2', '3', "'a'", 'None', '[1, 2]']
+VALUES = ['0', '1', '2', '3', "'a'", 'None', '[1, 2]', '[1, 2]', '[1, 2, 9]']
 
 
 def strategy(tier):
@@ -40,6 +40,8 @@ def strategy(tier):
     def cases(draw):
         spec = draw(gen.charts(max_states=8, mix=MIX, max_tr=10, min_tr=4, n_events=3,
                                p_eventless=0.15, p_orth_root=0.2, root_final=0.3, p_hist=0.2))
+        # 'basket' profile: the chart keeps list-valued event parameters and mutates them in place
+        basket = draw(st.floats(0, 1)) < 0.25
         seen = set()
         keep = []
         for t in spec['transitions']:
@@ -61,7 +63,15 @@ def strategy(tier):
                                                    "getattr(event, 'p', 0) == 1"]))
             acts = draw(st.lists(st.sampled_from(
                 ['x = x + 1', 'y = x', "send('o0', v=x)", "send('o1')", "send('o0', v=1, w='a')",
-                 "notify('n0', v=x)"]), max_size=2))
+                 "notify('n0', v=x)",
+                 # the chart keeps an event parameter and later changes it in place
+                 "z = getattr(event, 'q', z)", "z.append(9) if isinstance(z, list) else None"]),
+                max_size=2))
+            if basket and t['event'] is not None:
+                acts = [{'e0': "z = getattr(event, 'q', z)",
+                         'e1': "z.append(9) if isinstance(z, list) else None"}.get(
+                             t['event'], 'x = x + 1')] + acts[:1]
+                t['guard'] = None
             t['action'] = '\n'.join(acts) if acts else None
             keep.append(t)
         spec['transitions'] = keep
@@ -70,12 +80,14 @@ def strategy(tier):
                 s['on_entry'] = "send('o2', s=%d)" % s['sid']
             if draw(st.floats(0, 1)) < 0.1:
                 s['on_exit'] = 'y = y + 1'
-        spec['preamble'] = 'x = 0\ny = 0'
+        spec['preamble'] = 'x = 0\ny = 0\nz = None'
         names = [s['name'] for s in spec['states']]
         events = ['e0', 'e1', 'e2']
 
         def act(depth=0, earlier=()):
             kinds = ['send', 'send', 'send_with', 'wait', 'nothing']
+            if basket and depth == 0:
+                kinds += ['send_table'] * 3
             if depth == 0:
                 # (a Gherkin table cannot be attached to the step quoted inside a repeat step)
                 kinds += ['repeat', 'send_table']
@@ -90,7 +102,7 @@ def strategy(tier):
             if k == 'send_table':
                 return {'k': k, 'name': draw(st.sampled_from(events)),
                         'table': [['p', draw(st.sampled_from(['0', '1']))],
-                                  ['q', draw(st.sampled_from(VALUES))]]}
+                                  ['q', '[1, 2]' if basket else draw(st.sampled_from(VALUES))]]}
             if k == 'wait':
                 return {'k': k, 'seconds': draw(st.sampled_from([1, 2, 0.5, 5, 10])),
                         'plural': draw(st.booleans())}
@@ -102,6 +114,7 @@ def strategy(tier):
 
         def then():
             k = draw(st.sampled_from(
+                (['var_eq', 'var_ne'] * 4 if basket else []) +
                 ['entered', 'not_entered', 'exited', 'not_exited', 'active', 'not_active',
                  'fired', 'fired_with', 'fired_table', 'not_fired', 'no_event', 'var_eq',
                  'var_ne', 'expr', 'not_expr', 'final', 'not_final']))
@@ -119,8 +132,9 @@ def strategy(tier):
                 d['table'] = [['v', draw(st.sampled_from(['1', '2']))],
                               ['w', draw(st.sampled_from(["'a'", "'b'"]))]]
             elif k in ('var_eq', 'var_ne'):
-                d['var'] = draw(st.sampled_from(['x', 'y', 'z']))
-                d['v'] = draw(st.sampled_from(VALUES))
+                d['var'] = 'z' if basket and draw(st.booleans()) else draw(
+                    st.sampled_from(['x', 'y', 'z', 'z', 'undefined_u']))
+                d['v'] = draw(st.sampled_from(['[1, 2]', '[1, 2, 9]', 'None'] if basket else VALUES))
             elif k in ('expr', 'not_expr'):
                 d['expr'] = draw(st.sampled_from(['x == 0', 'x > 1', 'y == x', 'x < 3 and y >= 0',
                                                   "active('%s')" % names[0], 'x == 5']))
